@@ -48,6 +48,19 @@ CLAIMED["C06"] = dict(
          "packed words, random/lattice strings to 4 KiB.",
     ref="6 C06")
 
+CLAIMED["C07"] = dict(
+    technique="Lean 4 theorems (bit masks/shifts -> div/mod arithmetic; induction over strings) + correspondence exhaustive over all scalar values",
+    text="Theorems: decoding the encoding of any value < 0x110000 returns it (arithmetic proof, no enumeration); every Unicode "
+         "Table 3-7 sequence decodes to a scalar value whose encoding is that sequence; UTF-8 -> UTF-32 and UTF-32 -> UTF-8 "
+         "produce exactly the scalar values / concatenated encodings for EVERY initial destination capacity with all writes "
+         "inside the current capacity; both round trips; the surrogate arithmetic equals the standard's UTF-16 form for all 17 "
+         "planes and is inverted by the pair-joining code.",
+    note="Modelled, not verified: gp_arr_reserve/gp_str_reserve (capacity becomes at least the request), the capacity-phase "
+         "structure of utf8->utf16 (the model decodes then maps; its capacity independence is observed by the correspondence "
+         "run at capacities 0..needed+4). wchar_t = 32 bit here, so the wide functions exercise the UTF-32 path. Correspondence: "
+         "all 1,112,064 scalars through enc/dec and UTF-16 both ways, strings x capacities, plain exact-size and library sources.",
+    ref="6 C07")
+
 PENDING = {}
 
 def main():
